@@ -7,6 +7,8 @@ import argparse
 import json
 import os
 import sys
+import threading
+threading.stack_size(256 * 1024 * 1024)     # generator bodies of the evaluated code run on threads of their own
 import traceback
 
 from . import AnalysisError
